@@ -21,6 +21,9 @@ def main():
         if args.what == "replay":
             from qverif.core.replay import replay_file
             return replay_file(args.path)
+        if args.what == "selftest":
+            from qverif.core.selftest import run_selftest
+            return run_selftest()
         from qverif.core.runner import check_property
         return check_property(args.what, args.tier, args.seed)
     finally:
